@@ -33,7 +33,7 @@ TRUSTED = [
     'extraction (ExtrOcamlBasic only) + ocaml/driver.ml; this harness (printer, canonicalisers)',
 ]
 ASSUME = ['the codec of the file is ASCII-compatible and stateless on the rendered text (checked per case: encode/decode round trip)',
-          'C10_load_render_partial: the line lexer round trip is proved per line kind; see notes/C10.md for the composition']
+          'C10_load_po_render: the whole-file decode and codecs.lookup are oracle hypotheses of the theorem (answered by CPython in the harness)']
 
 _impl = {}
 
@@ -756,6 +756,9 @@ def check(ctx):
         if impl.startswith('ok '):
             if '\\' in s:
                 ctx.nontriv(('u', s, cs))
+            if impl.endswith(' 1') != bad_escape_present(s):
+                # C10_unescape_warned_iff_D14: the warning appears exactly when the structural predicate holds
+                ctx.disagree('warned <-> bad_escape', {'string': s, 'charset': cs}, 'bad_escape=%s' % bad_escape_present(s), impl)
             if impl.endswith(' 1'):
                 ctx.count('unescape:warned')
                 ctx.fail('stderr-warning', {'string': s}, 'polib_unescape makes CPython print a SyntaxWarning on stderr',
@@ -853,5 +856,5 @@ def check(ctx):
              'including the error line and kind; (d) line-separator characters; (e) sequences of 2-4 files with different charsets and the same escaped '
              'bytes (incl. byte pairs of legacy 8-bit charsets that are valid UTF-8) loaded by one fresh process. non-trivial = distinct string containing a backslash, distinct rendered '
              'file loading back to its catalog, distinct damaged-file outcome' % (maxlen, len(alpha)),
-        explanation='partial: C10_unescape_roundtrip and C10_machine_roundtrip are proved for all inputs; the line lexer is proved per rendered line '
-                    '(C10_lex_roundtrip) and composed in C10_load_render under the hypotheses named in notes/C10.md; codecs are oracles.')
+        explanation='C10_load_render / C10_open_load_render / C10_load_po_render are proved for every catalog and every spelling of the printer family '
+                    '(guards: nplurals <= 10 (D9); previous-msgid of obsolete entries is None (D22)); codecs are oracles; the tie to /repo is the correspondence.')
